@@ -698,6 +698,9 @@ impl PayMonitor {
 				let rec = &w.payments[pi];
 				let tainted = self.pay_tainted(w, pi);
 				v.rep.count("c03_p8_payment_failed_checked");
+				if rec.class == "underpaid-fee" || rec.class == "short-delta" {
+					v.rep.count("c02_f1_nonconforming_forwards_ended_in_payment_failed");
+				}
 				let p = self.ps[&pi].clone();
 				if p.forgotten {
 					v.violation("C03", "P5-forgotten-payment", "a payment the restarted node no longer listed produced an event afterwards", format!("node{} payment#{}", node, pi));
@@ -773,6 +776,9 @@ impl PayMonitor {
 				};
 				let reg = &w.regs[ri];
 				v.rep.count("c04_i1_claimable_events_checked");
+				if reg.keysend.is_some() {
+					v.rep.count("c04_i1_spontaneous_payments_claimable");
+				}
 				// parts that have arrived (irrevocably committed, unresolved) at this instant
 				let arrived: Vec<usize> = self.hs.iter().enumerate().filter(|(_, h)| h.to == node && h.hash == payment_hash.0 && h.down.is_none() && self.phase(h) == HtlcPhase::Committed).map(|(i, _)| i).collect();
 				let tainted = arrived.iter().any(|i| Self::chan_tainted(w, self.hs[*i].chan)) || self.restarted.contains(&node);
